@@ -295,10 +295,20 @@ func (c *SpecCtx) ident(name string) Val {
 			}
 		}
 	}
-	// local variable of the frame
+	// local variable of the frame, or (for a function inlined into its caller)
+	// of one of the frames it is inlined into
 	if c.fr != nil {
 		if v, ok := c.localVar(name); ok {
 			return v
+		}
+		for pf := c.fr.parent; pf != nil; pf = pf.parent {
+			n := *c
+			n.fr = pf
+			n.loopHead = nil
+			n.loopPos = token.NoPos
+			if v, ok := n.localVar(name); ok {
+				return v
+			}
 		}
 	}
 	// package-level constant or global
